@@ -530,6 +530,72 @@ func doMemory(repo, outDir string) {
 		fmt.Fprintf(&b, "def %s_ClearStatistics : List String := %s\n\n", t, leanStrList(fields))
 	}
 
+	// allocation lengths: `field: make([]T, len)` in composite literals, also through a local `x := make(...)`
+	b.WriteString("/-- length expression of every slice field allocated with make in package memory (type, field, expression) -/\n")
+	allocs := [][3]string{}
+	names := []string{}
+	for n := range files {
+		names = append(names, n)
+	}
+	sort.Strings(names)
+	for _, n := range names {
+		ast.Inspect(files[n], func(nd ast.Node) bool {
+			fd, ok := nd.(*ast.FuncDecl)
+			if !ok || fd.Body == nil {
+				return true
+			}
+			locals := map[string]string{}
+			makeLen := func(e ast.Expr) (string, bool) {
+				if c, ok := e.(*ast.CallExpr); ok {
+					if id, ok := c.Fun.(*ast.Ident); ok && id.Name == "make" && len(c.Args) >= 2 {
+						return exprString(c.Args[1]), true
+					}
+				}
+				if id, ok := e.(*ast.Ident); ok {
+					if l, ok := locals[id.Name]; ok {
+						return l, true
+					}
+				}
+				return "", false
+			}
+			ast.Inspect(fd.Body, func(x ast.Node) bool {
+				switch v := x.(type) {
+				case *ast.AssignStmt:
+					if len(v.Lhs) == 1 && len(v.Rhs) == 1 {
+						if id, ok := v.Lhs[0].(*ast.Ident); ok {
+							if l, ok := makeLen(v.Rhs[0]); ok {
+								locals[id.Name] = l
+							}
+						}
+					}
+				case *ast.CompositeLit:
+					tn, ok := v.Type.(*ast.Ident)
+					if !ok {
+						return true
+					}
+					for _, el := range v.Elts {
+						kv, ok := el.(*ast.KeyValueExpr)
+						if !ok {
+							continue
+						}
+						if id, ok := kv.Key.(*ast.Ident); ok {
+							if l, ok := makeLen(kv.Value); ok {
+								allocs = append(allocs, [3]string{tn.Name, id.Name, l})
+							}
+						}
+					}
+				}
+				return true
+			})
+			return false
+		})
+	}
+	parts := []string{}
+	for _, a := range allocs {
+		parts = append(parts, fmt.Sprintf("(%q, %q, %q)", a[0], a[1], a[2]))
+	}
+	fmt.Fprintf(&b, "def allocLens : List (String × String × String) := [%s]\n\n", strings.Join(parts, ", "))
+
 	// emuconfig.Config.NewCpu: switch c.MemSpec { case L16: mem = memory.NewLinearMemory(16384) ... }
 	cfiles := parseDir(filepath.Join(repo, "emuconfig"))
 	consts := map[string]string{}
